@@ -81,6 +81,13 @@ Definition md_ok (m : mty) (x : md) : bool :=
           end
   end.
 
+(* what a value of the metadata type keeps of the metadata table *)
+Definition proj_md (m : mty) (x : md) : md :=
+  match m, x with
+  | MV, Some t => match tget k_version t with Some v => Some [(k_version, v)] | None => Some [] end
+  | _, _ => x
+  end.
+
 Inductive content_class := CSyntax | CNotLcm | CLcm (ty : option ltypes) (m : md).
 Definition classify_content (c : content) : content_class :=
   match c with
